@@ -3060,6 +3060,73 @@ static void AssembleFile_ExitPass(void) {
     }
 }
 
+#ifdef ASL_VERIF
+/* verification hook, inert unless the environment asks for it:
+   ASL_VERIF_EXTRA_PASSES=n  run n further passes after the pass loop would stop
+   ASL_VERIF_MAX_PASSES=n    stop with exit status 98 after n passes without convergence,
+                             and with 97 as soon as the per-pass symbol table hashes prove
+                             a cycle (same hash sequence repeated three times) */
+
+#    define VERIF_MAXHIST 4096
+
+static void asl_verif_end_of_pass(void) {
+    static LargeWord Hist[VERIF_MAXHIST];
+    static long      ExtraDone;
+    char const*      pEnv;
+    long             MaxPasses = 0, ExtraPasses = 0, Period, z;
+
+    if (PassNo <= 1) {
+        ExtraDone = 0;
+    }
+    pEnv = getenv("ASL_VERIF_EXTRA_PASSES");
+    if (pEnv) {
+        ExtraPasses = atol(pEnv);
+    }
+    pEnv = getenv("ASL_VERIF_MAX_PASSES");
+    if (pEnv) {
+        MaxPasses = atol(pEnv);
+    }
+    if (ErrorCount != 0) {
+        return;
+    }
+    if (!Repass) {
+        if (ExtraDone < ExtraPasses) {
+            ExtraDone++;
+            Repass = True;
+        }
+        return;
+    }
+    if (MaxPasses <= 0) {
+        return;
+    }
+    if (PassNo < VERIF_MAXHIST) {
+        Hist[PassNo] = asl_verif_symbol_hash();
+        for (Period = 1; (3 * Period) + 2 <= PassNo; Period++) {
+            for (z = 0; z < 2 * Period; z++) {
+                if (Hist[PassNo - z] != Hist[PassNo - z - Period]) {
+                    break;
+                }
+            }
+            if (z == 2 * Period) {
+                fprintf(stderr, "ASL_VERIF: pass cycle of period %ld proved at pass %ld\n",
+                        Period, (long)PassNo);
+                if (CodeOutput) {
+                    unlink(OutName);
+                }
+                exit(97);
+            }
+        }
+    }
+    if (PassNo >= MaxPasses) {
+        fprintf(stderr, "ASL_VERIF: no convergence after %ld passes\n", (long)PassNo);
+        if (CodeOutput) {
+            unlink(OutName);
+        }
+        exit(98);
+    }
+}
+#endif /* ASL_VERIF */
+
 static void AssembleFile_WrSummary(char const* pStr) {
     if (!QuietMode) {
         WrConsoleLine(pStr, True);
@@ -3275,6 +3342,10 @@ static void AssembleFile(char* Name) {
         if (MacroOutput && (PassNo == 1)) {
             CloseIfOpen(&MacroFile);
         }
+
+#ifdef ASL_VERIF
+        asl_verif_end_of_pass();
+#endif
 
         /* evtl. fuer naechsten Durchlauf aufraeumen */
 
